@@ -707,7 +707,7 @@ def gen_expr(rng, depth, var_key, suf_key, exponent=False, arrays=False):
 CONNECTORS = ['+', '-', '*', '/', '^', '||', '^-', '*-', '/-', '+-', '--', '||-']
 BASIC = CONNECTORS[:6]
 LEAF_SETS = [['7', '3', '2', '5', '4'], ['1.5', '2', '3', '0.5', '4'], ['x', 'y', 'z_1', 'a_{1}', 'b2'],
-             ['3', 'x', '2', 'y', 'k']]
+             ['3', 'x', '2', 'y', 'k'], ['0', '3', '2', '0', '4'], ['2', '0', '3', '2', '0']]
 
 
 def seq_to_expr(lead, seq, leaves):
